@@ -351,7 +351,7 @@ func ppOne(c *ppCase) vh.Result {
 	var pc *bfe_proxy.Conn
 
 	go func() { // the sender
-		cl.SetWriteDeadline(time.Now().Add(8 * time.Second))
+		cl.SetWriteDeadline(time.Now().Add(30 * time.Second))
 		for _, ch := range chunks {
 			if len(ch) == 0 {
 				continue
@@ -362,8 +362,8 @@ func ppOne(c *ppCase) vh.Result {
 		}
 		cl.Close()
 	}()
-	pan, fin := vh.GuardTimeout(12*time.Second, func() {
-		pc = bfe_proxy.NewConn(srv, 4*time.Second, 0)
+	pan, fin := vh.GuardTimeout(40*time.Second, func() {
+		pc = bfe_proxy.NewConn(srv, 20*time.Second, 0)
 		if c.Order == 1 {
 			remote, virtual = pc.RemoteAddr(), pc.VirtualAddr()
 		}
@@ -395,7 +395,7 @@ func ppOne(c *ppCase) vh.Result {
 		return res
 	}
 	if !fin {
-		res.Sig, res.Detail, res.Obs = key+":hang", "no result within 12s", obs
+		res.Sig, res.Detail, res.Obs = key+":hang", "no result within 40s", obs
 		return res
 	}
 	obs.Remote, obs.Virtual = addrString(remote), addrString(virtual)
